@@ -29,6 +29,7 @@ import (
 	"os"
 	"sort"
 	"strings"
+	"sync/atomic"
 	"time"
 
 	am "` + machinePkg + `"
@@ -40,7 +41,13 @@ func main() {
 	handlers := []string{"BExit", "AEnter", "AnyEnter", "BEnd", "AState", "AnyState"}
 	for _, hname := range handlers {
 		for binding := 0; binding < 2; binding++ {
-			for _, fault := range []string{"panic-error", "panic-string", "stall"} {
+			faults := []string{"panic-error", "panic-string", "stall"}
+			if strings.HasPrefix(hname, "Any") {
+				// the global handlers also run for the Exception mutation itself: "-repeat" keeps
+				// the fault armed until the call returns (a fault inside the Exception transition)
+				faults = append(faults, "panic-error-repeat", "stall-repeat")
+			}
+			for _, fault := range faults {
 				total++
 				name := fmt.Sprintf("fault=%s at %s of binding #%d", fault, hname, binding+1)
 				runCase := func() string {
@@ -48,8 +55,19 @@ func main() {
 				m := am.New(ctx, am.Schema{"A": {}, "B": {}, "P": {}}, &am.Opts{
 					Id: "verif-c08", HandlerTimeout: 250 * time.Millisecond, HandlerDeadline: 3 * time.Second,
 				})
+				// the fault is armed for the mutation under test only (the global handlers also
+				// run during the set-up and the probe) and fires once, unless "-repeat"
+				var armed atomic.Bool
+				repeat := strings.HasSuffix(fault, "-repeat")
 				inject := func() {
-					switch fault {
+					if repeat {
+						if !armed.Load() {
+							return
+						}
+					} else if !armed.CompareAndSwap(true, false) {
+						return
+					}
+					switch strings.TrimSuffix(fault, "-repeat") {
 					case "panic-error":
 						panic(errors.New("boom-error"))
 					case "panic-string":
@@ -84,6 +102,7 @@ func main() {
 				}
 				m.Add1("B", nil)
 				before := m.Time(nil)
+				armed.Store(true)
 				done := make(chan am.Result, 1)
 				go func() { done <- m.Set(am.S{"A"}, nil) }()
 				bad := ""
@@ -95,6 +114,27 @@ func main() {
 				}
 				if bad == "" {
 					time.Sleep(20 * time.Millisecond)
+					armed.Store(false)
+				}
+				if bad == "" && repeat {
+					// repeated faults: the property only promises containment - the call returned,
+					// parity holds and the machine lives on
+					for i, s := range m.StateNames() {
+						if am.IsActiveTick(m.Time(nil)[i]) != m.Is1(s) {
+							bad += " tick parity of " + s + " does not match activity"
+						}
+					}
+					pr := make(chan am.Result, 1)
+					go func() { pr <- m.Add1("P", nil) }()
+					select {
+					case r := <-pr:
+						if r != am.Executed || !m.Is1("P") {
+							bad += fmt.Sprintf(" probe mutation after the fault: %v", r)
+						}
+					case <-time.After(3 * time.Second):
+						bad += " probe mutation after the fault blocked"
+					}
+				} else if bad == "" {
 					act := append(am.S{}, m.ActiveStates(nil)...)
 					sort.Strings(act)
 					got := strings.Join(act, ",")
@@ -222,6 +262,7 @@ func main() {
 	defer os.RemoveAll(tmp)
 	sf := filepath.Join(tmp, "main.go")
 	os.WriteFile(sf, []byte(src), 0o644)
+	keepStandin("c08_1", src)
 	virt := filepath.Join(opts.Repo, "internal", "zz_verif_c08bounded", "main.go")
 	ov, _ := json.Marshal(map[string]any{"Replace": map[string]string{virt: sf}})
 	ovf := filepath.Join(tmp, "ov.json")
